@@ -262,3 +262,47 @@ def thread_owners(cg):
             for q in cg.reachable([c], spawn=False):
                 out.setdefault(q, set()).add(root_fn(a))
     return out
+
+
+def eff_arg(f, e, name=None, ty=None):
+    """the argument of effect entry `e` (callee = a crate function) that is bound to the parameter called `name`, or - if the
+    name is gone - to the only parameter whose type matches `ty`: positions change when a private signature is reordered"""
+    from engine import AnchorError
+    cb = f.bodies.get(e[0])
+    idx = None
+    if cb is not None:
+        params = cb.locals[1:cb.arg_count + 1]
+        if name:
+            idx = next((i for i, l in enumerate(params) if l.get('name') == name), None)
+        if idx is None and ty:
+            c = [i for i, l in enumerate(params) if re.search(ty, l['ty'])]
+            idx = c[0] if len(c) == 1 else None
+    if idx is None or idx >= len(e[1]):
+        raise AnchorError(f"parameter {name or ty} of {e[0]} not found")
+    return e[1][idx]
+
+
+def ok_payload_selectors(f, fn_body, wanted):
+    """field selectors (tuple index or field name) of the Ok payload of `fn_body`'s Result return type, by field TYPE:
+    wanted = {label: type regex}.  `(Box<dyn Write>, PathBuf)` and `struct Opened { writer, path }` are the same payload."""
+    from fdi import split_generics
+    from engine import AnchorError
+    rt = fn_body.locals[0]['ty']
+    head, args = split_generics(rt)
+    if not head.endswith('result::Result') or not args:
+        raise AnchorError(f"{fn_body.path} does not return a Result ({rt})")
+    okt = args[0]
+    if okt.startswith('('):
+        elems = split_generics('T<' + okt[1:-1] + '>')[1]
+        fields = [(str(i), t) for i, t in enumerate(elems)]
+    elif okt in f.adts:
+        fields = [(fd['name'], fd['ty']) for fd in f.adts[okt]['variants'][0]['fields']]
+    else:
+        raise AnchorError(f"Ok payload of {fn_body.path} is neither a tuple nor a crate struct: {okt}")
+    out = {}
+    for label, rx in wanted.items():
+        c = [n for n, t in fields if re.search(rx, t)]
+        if len(c) != 1:
+            raise AnchorError(f"Ok payload of {fn_body.path}: {len(c)} fields of type /{rx}/")
+        out[label] = c[0]
+    return out
